@@ -85,13 +85,22 @@ type vc08Acct struct{ algos, status, extra uint64 }
 
 func (x vc08Acct) empty() bool { return x == vc08Acct{} }
 
+// extra packs the fields the trackers copy verbatim: auth address (2 bits) and the four resource
+// counters lookupLatest relies on (4 bits each)
+func vc08Extra(auth, tap, ta, tapp, tals uint64) uint64 {
+	return auth | tap<<2 | ta<<6 | tapp<<10 | tals<<14
+}
+
 func (x vc08Acct) core() ledgercore.AccountData {
 	return ledgercore.AccountData{AccountBaseData: ledgercore.AccountBaseData{
-		MicroAlgos: basics.MicroAlgos{Raw: x.algos}, Status: basics.Status(x.status), AuthAddr: vc08Addr(x.extra)}}
+		MicroAlgos: basics.MicroAlgos{Raw: x.algos}, Status: basics.Status(x.status), AuthAddr: vc08Addr(x.extra & 3),
+		TotalAssetParams: (x.extra >> 2) & 15, TotalAssets: (x.extra >> 6) & 15,
+		TotalAppParams: (x.extra >> 10) & 15, TotalAppLocalStates: (x.extra >> 14) & 15}}
 }
 
 func vc08AcctOf(d ledgercore.AccountData) vc08Acct {
-	return vc08Acct{d.MicroAlgos.Raw, uint64(d.Status), vc08AddrNum(d.AuthAddr)}
+	return vc08Acct{d.MicroAlgos.Raw, uint64(d.Status),
+		vc08Extra(vc08AddrNum(d.AuthAddr), d.TotalAssetParams, d.TotalAssets, d.TotalAppParams, d.TotalAppLocalStates)}
 }
 
 // half of a resource record: -1 nil & not deleted, -2 deleted, n >= 0 set
@@ -328,6 +337,7 @@ func (w *vc08World) opPost(reader func()) {
 func (w *vc08World) opReload() {
 	require.Equal(w.t, 0, w.phase)
 	require.Equal(w.t, 0, w.nheld())
+	w.latestSweep()
 	w.gate.step = false
 	w.ml.trackers.close()
 	w.openTrackers()
@@ -558,6 +568,45 @@ func (w *vc08World) qCre(rnd, cidx, ctype uint64) interface{} {
 		return vL(vSym("ok"), 0, 0)
 	}
 	return vL(vSym("ok"), 1, vc08AddrNum(a))
+}
+
+// Ledger.LookupAccount's tracker part: the account at the latest round with all its resources.  Its
+// cache writes are not modelled, so it is only issued where the caches are about to be discarded
+// (before a reload, at the end of a run); the answers go to the oracle alone.
+func (w *vc08World) latestSweep() {
+	if w.phase == 2 {
+		return
+	}
+	for _, a := range w.addrs {
+		d, rnd, _, err := w.au.lookupLatest(vc08Addr(a))
+		if err != nil {
+			w.ops = append(w.ops, vL(vSym("zl"), a, vc08Err(err)))
+			continue
+		}
+		res := vL()
+		for _, c := range w.cidxs {
+			p, h := int64(-1), int64(-1)
+			if vc08IsApp(c) {
+				if x, ok := d.AppParams[basics.AppIndex(c)]; ok {
+					p = int64(x.GlobalStateSchema.NumUint)
+				}
+				if x, ok := d.AppLocalStates[basics.AppIndex(c)]; ok {
+					h = int64(x.Schema.NumUint)
+				}
+			} else {
+				if x, ok := d.AssetParams[basics.AssetIndex(c)]; ok {
+					p = int64(x.Total)
+				}
+				if x, ok := d.Assets[basics.AssetIndex(c)]; ok {
+					h = int64(x.Amount)
+				}
+			}
+			res = append(res, vL(c, p, h))
+		}
+		nres := len(d.AppParams) + len(d.AppLocalStates) + len(d.AssetParams) + len(d.Assets)
+		w.ops = append(w.ops, vL(vSym("zl"), a, vL(vSym("ok"), uint64(rnd), d.MicroAlgos.Raw, uint64(d.Status), vc08AddrNum(d.AuthAddr), res, nres)))
+		w.stats["latest_lookups"]++
+	}
 }
 
 func (w *vc08World) dump() {
@@ -831,7 +880,7 @@ func (w *vc08World) genDelta(r *vRand) *vc08Delta {
 		case 3: // rekey
 			if !cur.empty() {
 				x := cur
-				x.extra = uint64(r.Intn(4))
+				x.extra = x.extra&^3 | uint64(r.Intn(4))
 				touchAcct(a, x)
 			}
 		case 4: // close: the account and everything it holds disappears
@@ -926,6 +975,36 @@ func (w *vc08World) genDelta(r *vRand) *vc08Delta {
 		}
 		d.res = append(d.res, vc08Res{k[0], k[1], enc(cur[0], old[0]), enc(cur[1], old[1])})
 	}
+	// the resource counters of the accounts whose resources changed (the evaluator keeps them in step)
+	for _, k := range resOrder {
+		a := k[0]
+		x := w.gAcct[a]
+		if x.empty() {
+			continue
+		}
+		var tap, ta, tapp, tals uint64
+		for _, c := range w.cidxs {
+			if v, ok := w.gRes[[2]uint64{a, c}]; ok {
+				if vc08IsApp(c) {
+					if v[0] >= 0 {
+						tapp++
+					}
+					if v[1] >= 0 {
+						tals++
+					}
+				} else {
+					if v[0] >= 0 {
+						tap++
+					}
+					if v[1] >= 0 {
+						ta++
+					}
+				}
+			}
+		}
+		x.extra = vc08Extra(x.extra&3, tap, ta, tapp, tals)
+		touchAcct(a, x)
+	}
 	return d
 }
 
@@ -955,7 +1034,7 @@ func vc08NewWorld(t *testing.T, stats map[string]int, lookback uint64, disableCa
 	for _, g := range genAccts {
 		w.gAcct[g.addr] = g.a
 		genesis[vc08Addr(g.addr)] = basics.AccountData{MicroAlgos: basics.MicroAlgos{Raw: g.a.algos},
-			Status: basics.Status(g.a.status), AuthAddr: vc08Addr(g.a.extra)}
+			Status: basics.Status(g.a.status), AuthAddr: vc08Addr(g.a.extra & 3)}
 		gen = append(gen, vL(g.addr, g.a.algos, g.a.status, g.a.extra))
 	}
 	w.ml = makeMockLedgerForTrackerWithLogger(t, false, 1, protocol.ConsensusCurrentVersion,
@@ -1095,6 +1174,7 @@ func vc08RunCase(t *testing.T, r *vRand, caseNo int, nops int, out *vOut, stats 
 		w.dump()
 		w.sweep(r, false)
 	}
+	w.latestSweep()
 	w.emit(out, gen)
 	stats["cases"]++
 	stats["ops"] += len(w.ops)
@@ -1286,4 +1366,53 @@ func TestVerifC08LatePending(t *testing.T) {
 	}
 	b, _ := json.MarshalIndent(st, "", " ")
 	os.WriteFile(filepath.Join(os.Getenv("VERIF_OUT"), "stats_late.json"), b, 0644)
+}
+
+// The late cache write with the eviction done by the code itself: a 100002-account block goes
+// through the base account cache (prune slack baseAccountsPendingAccountsBufferSize) while the
+// reader is held.  Too large for the model; the outcome is recorded in stats_late_turnover.json
+// (thorough tier only).
+func TestVerifC08LatePendingTurnover(t *testing.T) {
+	if os.Getenv("VERIF_OUT") == "" || vTier() != "thorough" {
+		t.Skip("thorough tier only")
+	}
+	stats := map[string]int{}
+	w, _ := vc08NewWorld(t, stats, 0, false, []vc08Gen{{1, vc08Acct{algos: 100}}})
+	defer w.close()
+	commitAll := func(rnd uint64) {
+		w.opSchedule(rnd)
+		w.opCommit()
+		w.opPost(nil)
+	}
+	require.True(t, w.opStall(0, 0, 1, 0, ""))
+	d := &vc08Delta{}
+	d.accts = append(d.accts, struct {
+		addr uint64
+		a    vc08Acct
+	}{1, vc08Acct{algos: 200}})
+	w.opBlock(d)
+	commitAll(1)
+	big := &vc08Delta{}
+	for i := uint64(0); i < baseAccountsPendingAccountsBufferSize+2; i++ {
+		big.accts = append(big.accts, struct {
+			addr uint64
+			a    vc08Acct
+		}{1000 + i, vc08Acct{algos: 1}})
+	}
+	w.ops = nil
+	w.opBlock(big)
+	w.ops = nil
+	commitAll(2)
+	w.opBlock(&vc08Delta{}) // newBlockImpl prunes the base cache
+	_, cached := w.au.baseAccounts.read(vc08Addr(1))
+	w.opLand(0, 0)
+	w.opBlock(&vc08Delta{}) // flush
+	obs := w.qAcct(4, 1)
+	st := map[string]interface{}{
+		"account_evicted_by_turnover": !cached,
+		"answer_after_late_write":     vT(obs.([]interface{})...),
+		"history_says":                "(ok 200 0 0)",
+	}
+	b, _ := json.MarshalIndent(st, "", " ")
+	os.WriteFile(filepath.Join(os.Getenv("VERIF_OUT"), "stats_late_turnover.json"), b, 0644)
 }
